@@ -158,6 +158,14 @@ pub fn check(c: &Case) -> Result<(), String> {
                 let copy = Slot { h: s.h.clone(), twin: s.twin.clone(), model: s.model.clone(), resets: s.resets };
                 if slots.len() == 1 {
                     slots.push(copy);
+                } else if s.model.len() % 2 == 1 {
+                    // every other time: Clone::clone_from into the other, already used hasher
+                    let (x, y) = slots.split_at_mut(1);
+                    let (dst, src) = if cur == 0 { (&mut y[0], &x[0]) } else { (&mut x[0], &y[0]) };
+                    dst.h.clone_from(&src.h);
+                    dst.twin = copy.twin;
+                    dst.model = copy.model;
+                    dst.resets = copy.resets;
                 } else {
                     slots[1 - cur] = copy;
                 }
@@ -266,6 +274,8 @@ pub fn chunk_index() -> BoxedStrategy<u64> {
         2 => (0u32..=40, 0u64..=500).prop_map(|(k, odd)| core::cmp::min((2 * odd + 1) << k, (1u64 << 54) - 1)),
         2 => (0u64..=34).prop_map(|d| (1u64 << 32) - 17 + d),
         1 => (1u64..=40).prop_map(|d| (1u64 << 54) - d),
+        // the last 2^k chunks of the counter space: a full subtree here ends at byte 2^64
+        1 => (0u32..=7).prop_map(|k| (1u64 << 54) - (1u64 << k)),
         1 => 0u64..(1u64 << 54),
     ]
     .boxed()
